@@ -9,6 +9,7 @@ sites per function."""
 import copy
 import json
 import os
+import re
 
 VERIF = os.path.dirname(os.path.dirname(os.path.abspath(__file__)))
 MAX_BLOCKS = 120
@@ -18,6 +19,66 @@ MAX_DEPTH = 4
 def load_known():
     with open(os.path.join(VERIF, "tables", "known_fns.json")) as f:
         return set(json.load(f)["functions"])
+
+
+def load_signatures():
+    with open(os.path.join(VERIF, "tables", "known_fns.json")) as f:
+        return json.load(f).get("signatures", {})
+
+
+def _rename_in_terms(prog, old_rel, new_rel):
+    """rewrite call-site spellings of a function path (crate-relative) from new_rel back to old_rel"""
+    for f in prog.fns.values():
+        for b in f.blocks:
+            t = b["term"]
+            if t["t"] != "call":
+                continue
+            for k in ("callee", "resolved", "written"):
+                v = t.get(k)
+                if isinstance(v, str) and new_rel in v:
+                    t[k] = re.sub(r"(?<![A-Za-z0-9_])%s(?![A-Za-z0-9_])" % re.escape(new_rel), old_rel, v)
+            fo = t.get("fnop")
+            if isinstance(fo, dict):
+                for k in ("fn", "fnargs", "ty"):
+                    v = fo.get(k)
+                    if isinstance(v, str) and new_rel in v:
+                        fo[k] = re.sub(r"(?<![A-Za-z0-9_])%s(?![A-Za-z0-9_])" % re.escape(new_rel), old_rel, v)
+
+
+def normalise_renames(prog, ws=("msi", "msi_ffi")):
+    """a private function of the reference tree that is missing today, with exactly one new function of the same signature in the same
+    module/impl (renamed) or with the same name elsewhere (moved), is given its reference name back, at its definition and at every call site"""
+    sigs = load_signatures()
+    known = set(sigs) or load_known()
+    missing = [n for n in known if n.split("::", 1)[0] in ws and n not in prog.by_name]
+    if not missing:
+        return {}
+    unknown = [g for g in prog.fns.values() if g.crate in ws and g.kind in ("Fn", "AssocFn") and g.name not in known]
+    done = {}
+    used = set()
+    for m in sorted(missing):
+        sig = sigs.get(m)
+        if sig is None:
+            continue
+        parent, last = m.rsplit("::", 1)
+        same_sig = [g for g in unknown if g.id not in used and [g.locals[i] for i in range(0, g.argc + 1)] == sig]
+        cands = [g for g in same_sig if g.name.rsplit("::", 1)[0] == parent] or [g for g in same_sig if g.name.rsplit("::", 1)[1] == last]
+        if len(cands) != 1:
+            continue
+        g = cands[0]
+        used.add(g.id)
+        old_rel, new_rel = m.split("::", 1)[1], g.path
+        prog.by_name.pop(g.name, None)
+        for c in prog.fns.values():
+            if c is not g and c.path.startswith(new_rel + "::{closure"):
+                prog.by_name.pop(c.name, None)
+                c.path = old_rel + c.path[len(new_rel):]
+                prog.by_name.setdefault(c.name, []).append(c)
+        g.path = old_rel
+        prog.by_name.setdefault(g.name, []).append(g)
+        _rename_in_terms(prog, old_rel, new_rel)
+        done[m] = g.crate + "::" + new_rel
+    return done
 
 
 def _map_place(pl, lo):
@@ -120,6 +181,7 @@ def inline_into(fn, callee_of, eligible, depth=0):
 
 def run(prog, ws=("msi", "msi_ffi")):
     """inline unknown same-workspace helpers into every analysed function; returns {fn name: [helpers inlined]}"""
+    prog.renamed = normalise_renames(prog, ws) if ws == ("msi", "msi_ffi") else {}
     known = load_known()
 
     def eligible(g):
